@@ -194,6 +194,19 @@ def _check(ast, ctx, labels, maxlen=3):
             fail("z: consumes %d element(s) on %r" % (c, w))
         if labels.get("o") and c != 1:
             fail("o: consumes %d element(s) on %r" % (c, w))
+    # canonical witnesses of the specification do what they are for
+    if base in ("B", "W"):
+        for w, want in [(x, True) for x in sats] + [(x, False) for x in dis]:
+            inp = [M1, M2] + w + ([TOP] if base == "W" else [])
+            res, log, why = X.run_fragment(sc, inp, tx, ctx)
+            if res is None:
+                fail("canonical: the specification's %s %r aborts (%s)" % ("satisfaction" if want else "dissatisfaction", w, why))
+                continue
+            r = res[-1] if (base == "B" or res[-1] != TOP) else res[-2]
+            if base == "W" and res[-1] == TOP:
+                r = res[-2]
+            if X.truth(r) != want:
+                fail("canonical: the specification's %s %r leaves %r" % ("satisfaction" if want else "dissatisfaction", w, r))
     if labels.get("d") and base in ("B", "W") and not found_free_dissat:
         fail("d: no signature-free input leaves 0 (searched stacks up to length %d and all single substitutions of the "
              "canonical witnesses)" % maxlen)
